@@ -443,5 +443,13 @@ def replay(ctx, payload):
                if L.ref_image_byte(img, inp["q"], inp["big"], a) != (inp["bytes"][a - k] if k <= a < k + len(inp["bytes"]) else 0)]
         print("image:", [hex(w) for w in img], "bad byte addresses:", bad[:10])
         return 1 if bad else 0
+    if inp.get("kind") == "verdict":
+        b, verdict = L.safe_build(inp["cfg"])
+        print("build verdict:", verdict)
+        return 0
+    if inp.get("kind") == "sweep":
+        c = L.sweep_case((inp["seed"],))
+        print(c["line"], "->", c["real"][:400])
+        return 0
     print("nothing to replay in", list(inp))
     return 2
